@@ -62,6 +62,10 @@ type op struct {
 	chosen     int // result: case index, -1 default
 	panicMsg   string
 	str        string
+	// gosched: runtime.Gosched. The thread stays disabled until some other thread has taken a step (waiting is
+	// cleared then), or until nothing else can run: a loop that polls with Gosched is thereby a blocking wait
+	// instead of a cycle, and only executions that differ by idle spinning are left out.
+	gosched, waiting bool
 }
 
 func (o *op) String() string {
@@ -84,6 +88,12 @@ func (o *op) String() string {
 	case opSleep:
 		o.str = "sleep->" + strconv.FormatInt(o.wakeAt, 10)
 	case opYield:
+		if o.gosched {
+			if o.waiting {
+				return "gosched(waiting)"
+			}
+			return "gosched"
+		}
 		o.str = "yield"
 	default:
 		var b strings.Builder
@@ -328,14 +338,20 @@ func (x *Exec) parkedPeers(t *Thread, ch *chanCore, d dir) (peers []transition) 
 }
 
 func (x *Exec) enabled() []transition {
-	var ts []transition
+	var ts, spinners []transition
 	for _, t := range x.Threads {
 		if t.done || t.pending == nil {
 			continue
 		}
 		o := t.pending
 		switch o.kind {
-		case opStart, opClose, opYield:
+		case opYield:
+			if o.gosched && o.waiting {
+				spinners = append(spinners, transition{t: t, ci: -2})
+				continue
+			}
+			ts = append(ts, transition{t: t, ci: -2})
+		case opStart, opClose:
 			ts = append(ts, transition{t: t, ci: -2})
 		case opWGWait:
 			if o.wg.n == 0 {
@@ -384,6 +400,19 @@ func (x *Exec) enabled() []transition {
 			if !solo && o.hasDefault {
 				ts = append(ts, transition{t: t, ci: -1})
 			}
+		}
+	}
+	if len(ts) == 0 && len(spinners) > 0 {
+		// nothing else can run: if the clock can still advance it does so first (Run), otherwise the pollers go on
+		timed := false
+		for _, t := range x.Threads {
+			timed = timed || (!t.done && t.pending != nil && t.pending.kind == opSleep)
+		}
+		for _, tm := range x.timers {
+			timed = timed || !tm.fired
+		}
+		if !timed {
+			ts = spinners
 		}
 	}
 	if x.DonePriority {
@@ -465,6 +494,11 @@ func (x *Exec) apply(tr transition) {
 	t := tr.t
 	o := t.pending
 	x.Steps++
+	for _, u := range x.Threads {
+		if u != t && u.pending != nil && u.pending.waiting {
+			u.pending.waiting = false // another thread has made a step: a thread parked in Gosched may look again
+		}
+	}
 	if x.Trace != nil {
 		x.tracef("step %d t=%d thread %s (%s): %s", x.Steps, x.Now, t.ID, t.Site, o)
 		if tr.ci >= -1 {
